@@ -988,6 +988,9 @@ func (e *Exec) invoke(s *State, ins ssa.Instruction, c *ssa.CallCommon, args []V
 // ---------- select / send ----------
 
 func (e *Exec) selectInstr(s *State, x *ssa.Select) Value {
+	if x.Blocking {
+		e.blockingUnderLock(s, x.Pos(), "blocking select")
+	}
 	e.logAbs("select: nondeterministic choice, received values unconstrained")
 	n := len(x.States)
 	idx := e.freshValue(s, "selidx", types.Typ[types.Int]).(*Node)
@@ -1021,6 +1024,7 @@ func (e *Exec) selectInstr(s *State, x *ssa.Select) Value {
 }
 
 func (e *Exec) sendInstr(s *State, x *ssa.Send) {
+	e.blockingUnderLock(s, x.Pos(), "channel send")
 	e.sendSafety(s, e.val(s, x.Chan), x.Pos())
 	e.assertValInv(s, e.val(s, x.X), x.X.Type(), x, "sent on a channel")
 	if e.quiet == 0 {
